@@ -162,7 +162,9 @@ def monitor_letters(ctx, pairs):
         if got == {letter}:
             ctx.count("letter_probe_same")
             continue
-        ok = len(got) == 1
+        # another letter is acceptable only when spglib really works in another origin / setting than the tabulated one
+        same_frame = np.abs(np.array(ds.origin_shift) - np.rint(ds.origin_shift)).max() < 1e-6 and np.allclose(ds.transformation_matrix, np.eye(3), atol=1e-6)
+        ok = len(got) == 1 and not same_frame
         if ok:
             g = list(got)[0]
             ok = (g in W[n] and len(W[n][g]["expressions"]) == len(W[n][letter]["expressions"]) and len(W[n][g]["variables"]) == len(W[n][letter]["variables"]))
@@ -221,8 +223,13 @@ def run(ctx):
     if ctx.thorough():
         pairs = all_pairs
     else:
-        idx = rng.choice(len(all_pairs), 300, replace=False)
-        pairs = [all_pairs[i] for i in sorted(idx)]
+        # every position WITHOUT free parameters (two of them can be listed under each other's letter and leave the table self-consistent),
+        # and a sample of the others
+        fixed = [(n, l) for n, l in all_pairs if not W[n][l]["variables"]]
+        rest = [q for q in all_pairs if q not in set(fixed)]
+        idx = rng.choice(len(rest), 200, replace=False)
+        pairs = sorted(fixed + [rest[i] for i in idx])
+        ctx.coverage["letter_probes"] = "%d parameter-free positions (all) + %d of %d others" % (len(fixed), len(idx), len(rest))
     badl = monitor_letters(ctx, pairs)
     for b in badl:
         ctx.finding("letterprobe:%d:%s" % (b["group"], b["letter"]), "probe crystal for %d %s: %s" % (b["group"], b["letter"], b["what"]),
